@@ -33,7 +33,7 @@ MUTATING = {"update", "append", "add", "extend", "setdefault", "pop", "clear", "
 def run(ctx):
     repo = ctx.repo
     res = Result(PROP)
-    res.rules = ["E-TYPE", "E-REJECT", "E-FOOT", "E-ALIAS", "E-LOOPALIAS"]
+    res.rules = ["E-TYPE", "E-REJECT", "E-DIR", "E-FOOT", "E-ALIAS", "E-LOOPALIAS"]
     res.explanation = (
         "Narrow claim. Raise sites of the three class bodies are classified by their guard and the raised class is "
         "resolved; removals keyed by parameters are checked for a dominating membership test or a converting handler; "
@@ -68,6 +68,7 @@ def run(ctx):
         res.floor("methods checked for dropped parameters", n_alias, 70)
         check_idddict(repo, res)
         check_foot(repo, eng, res)
+        check_clear_update(repo, eng, res)
     return res
 
 
@@ -231,6 +232,7 @@ def check_table_removals(repo, res, ctx):
     eng = Effects(repo)
     n = 0
     n_rej = [0]
+    n_dir = [0]
     for cname in CORE_CLASSES:
         directed = cname == "DiHypergraph"
         direct, indirect = direct_writer_methods(repo, eng, cname)
@@ -253,6 +255,18 @@ def check_table_removals(repo, res, ctx):
                     continue
                 # ---- E-REJECT: an explicit rejection (raise statement) comes before any write of the same item
                 evs = [e for e in ma.events if e.rel != "CALL"]
+                # ---- E-DIR: direction="in" edits the tail (edge side "in", node side "out"), "out" the head
+                d = val.get("direction")
+                if directed and d in ("in", "out") and "direction" in fi.all_params:
+                    other = "out" if d == "in" else "in"
+                    sided = [e for e in evs if e.rel in ("E.in", "E.out", "N.in", "N.out")]
+                    bad = [e for e in sided if e.rel not in (f"E.{d}", f"N.{other}")]
+                    n_dir[0] += 1
+                    res.inst("E-DIR", f"{fi.qualname} [direction={d!r}]: {len(sided)} membership events, all on edge side {d!r} / node side {other!r}", not bad and bool(sided))
+                    if bad and ("dir", d) not in seen_rej:
+                        seen_rej.add(("dir", d))
+                        w = bad[0]
+                        res.add(mk_finding(PROP, "E-DIR", fi, w.stmt, f"{fi.qualname}: with direction={d!r} the statement `{unparse(w.stmt, 60)}` edits {w.rel}; the documentation says {d!r} means the {'tail' if d == 'in' else 'head'} of the edge (edge side {d!r}, node side {other!r})", role=f"direction:{d}"))
                 for rp in ma.raises:
                     if rp.kind != "explicit raise" and "explicit raise" not in rp.text:
                         continue
@@ -287,6 +301,7 @@ def check_table_removals(repo, res, ctx):
             res.inst("E-TYPE", f"{cname}.{mname}: removals on stored member sets are justified", True)
     if not ctx.only:
         res.floor("explicit rejection points in the mutators (method x valuation)", n_rej[0], 100)
+        res.floor("direction-taking mutators x direction values", n_dir[0], 4)
     return n
 
 
@@ -346,8 +361,57 @@ def check_foot(repo, eng, res):
                             res.add(mk_finding(PROP, "E-FOOT", m, st, f"{m.qualname} stores under a key of {tab} that it has not looked up before: a new ID could be inserted by a move that must keep all IDs", role="insert"))
 
 
+def check_clear_update(repo, eng, res):
+    """E-FOOT for clear / clear_edges (exact table footprint, network attributes only on request) and the forwarding of
+    update(): documented effects that the suite does not pin (dropping `self._net_attr.clear()` passes it)."""
+    for cname in CORE_CLASSES:
+        ci = repo.get_class(cname)
+        m = repo.find_method(ci, "clear")
+        if m is None:
+            raise AnalysisError(f"{cname}.clear not found (anchor vanished)")
+        flag = next((p for p in m.all_params if p == "remove_net_attr"), None)
+        if flag is None:
+            raise AnalysisError(f"{cname}.clear has no remove_net_attr parameter (anchor vanished)")
+        for val in (True, False):
+            summ = eng.summarize(m, cname, ((flag, val),), ())
+            regions = {w.region for w in summ.writes if w.origin == ("p", 0) and w.kind in ("key", "rebind")}
+            need = {NODE, EDGE, NATTR, EATTR} | ({NETATTR} if val else set())
+            missing = need - regions
+            extra = {NETATTR} & regions if not val else set()
+            ok = not missing and not extra
+            res.inst("E-FOOT", f"{m.qualname} (as {cname}) [remove_net_attr={val}] clears exactly {sorted(need)}", ok)
+            if not ok:
+                what = f"does not clear {sorted(missing)}" if missing else "clears the network attributes although asked to keep them"
+                res.add(mk_finding(PROP, "E-FOOT", m, m.node, f"{m.qualname} (as {cname}) with remove_net_attr={val} {what}; clear() is documented to remove all nodes, edges and their attributes, and the network attributes exactly when remove_net_attr is true", role=f"{cname}:clear:{val}"))
+        ce = repo.find_method(ci, "clear_edges")
+        if ce is not None:
+            summ = eng.summarize(ce, cname, (), ())
+            regions = {w.region for w in summ.writes if w.origin == ("p", 0)}
+            keyreg = {w.region for w in summ.writes if w.origin == ("p", 0) and w.kind in ("key", "rebind")}
+            ok = {EDGE, EATTR} <= keyreg and NODE in regions and not ({NATTR, NETATTR} & regions)
+            res.inst("E-FOOT", f"{ce.qualname} (as {cname}) clears E and EATTR, empties the memberships, keeps nodes, node and network attributes", ok)
+            if not ok:
+                res.add(mk_finding(PROP, "E-FOOT", ce, ce.node, f"{ce.qualname} (as {cname}) writes {sorted(regions)}; it is documented to remove all edges (table and attributes, and the memberships of every node) without altering nodes, node attributes or network attributes", role=f"{cname}:clear_edges"))
+        up = repo.find_method(ci, "update")
+        if up is not None and {"nodes", "edges"} <= set(up.all_params):
+            selfn = up.params[0]
+            for pname, callee in (("nodes", "add_nodes_from"), ("edges", "add_edges_from")):
+                ok = False
+                for st in own_statements(up.node):
+                    if isinstance(st, ast.If):
+                        t = st.test
+                        pos = (isinstance(t, ast.Name) and t.id == pname) or (isinstance(t, ast.Compare) and isinstance(t.left, ast.Name) and t.left.id == pname and isinstance(t.ops[0], ast.IsNot))
+                        if pos and any(isinstance(c, ast.Call) and isinstance(c.func, ast.Attribute) and c.func.attr == callee and isinstance(c.func.value, ast.Name) and c.func.value.id == selfn and c.args and isinstance(c.args[0], ast.Name) and c.args[0].id == pname for b in st.body for c in ast.walk(b)):
+                            ok = True
+                    if isinstance(st, ast.Expr) and isinstance(st.value, ast.Call) and getattr(st.value.func, "attr", None) == callee and st.value.args and isinstance(st.value.args[0], ast.Name) and st.value.args[0].id == pname and st in up.node.body:
+                        ok = True
+                res.inst("E-ALIAS", f"{up.qualname} (as {cname}) hands `{pname}` to {callee} when it is given", ok)
+                if not ok:
+                    res.add(mk_finding(PROP, "E-ALIAS", up, up.node, f"{up.qualname}: `{pname}` is not handed to {callee}() on the branch where it is given; update() is documented to add the given nodes and edges", role=f"{cname}:update:{pname}"))
+
+
 # ------------------------------------------------------------------------------------------ E-ALIAS
-def check_params(repo, res, ci, m):
+def check_params(repo, res, ci, m, prop=PROP, rule="E-ALIAS"):
     if m.name.startswith("_") and not m.name.startswith("__"):
         return 0
     if m.name.startswith("__") and m.name not in ("__lshift__", "__setitem__", "__getitem__", "__contains__"):
@@ -361,17 +425,17 @@ def check_params(repo, res, ci, m):
     params = [p for p in m.all_params if p != selfn]
     for p in params:
         ok = p in loaded
-        res.inst("E-ALIAS", f"{m.qualname} reads its parameter `{p}`", ok)
+        res.inst(rule, f"{m.qualname} reads its parameter `{p}`", ok)
         if not ok:
-            res.add(mk_finding(PROP, "E-ALIAS", m, m.node, f"{m.qualname} accepts `{p}` but never uses it: the documented effect of that argument is silently dropped", role=p))
+            res.add(mk_finding(prop, rule, m, m.node, f"{m.qualname} accepts `{p}` but never uses it: the documented effect of that argument is silently dropped", role=p))
     for c in ast.walk(m.node):
         if isinstance(c, ast.Call) and isinstance(c.func, ast.Attribute) and isinstance(c.func.value, ast.Name) and c.func.value.id == selfn:
             for kw in c.keywords:
                 if kw.arg in params:
                     ok = any(isinstance(x, ast.Name) and x.id == kw.arg for x in ast.walk(kw.value))
-                    res.inst("E-ALIAS", f"{m.qualname}:{c.lineno} forwards {kw.arg}={unparse(kw.value, 20)}", ok)
+                    res.inst(rule, f"{m.qualname}:{c.lineno} forwards {kw.arg}={unparse(kw.value, 20)}", ok)
                     if not ok:
-                        res.add(mk_finding(PROP, "E-ALIAS", m, c, f"{m.qualname} forwards `{kw.arg}={unparse(kw.value, 30)}` to self.{c.func.attr}() instead of its own `{kw.arg}` argument", role=kw.arg))
+                        res.add(mk_finding(prop, rule, m, c, f"{m.qualname} forwards `{kw.arg}={unparse(kw.value, 30)}` to self.{c.func.attr}() instead of its own `{kw.arg}` argument", role=kw.arg))
     return 1
 
 
